@@ -6,6 +6,42 @@ props = [json.loads(l) for l in open(os.path.join(V, 'properties.jsonl'))]
 
 # id -> (engine, technique, level text, level note)
 CLAIMS = {
+ "C01": ("asnlint", "static analysis: template vocabulary of every quote! body checked against the parsed `rasn::prelude` of the pinned rasn; emitted #[rasn(..)] keys against rasn-derive-impl's accepted keys per position; branch delta of the lazy templates; enumeration of text-to-token sites",
+         "Necessary conditions only: every type/trait name the generator emits resolves inside the emitted module, every rasn attribute key is accepted by the pinned derive at the position it is emitted, LazyLock/lazy_static templates and import agree, text-to-token sites do not grow unnoticed. Type-checking of arbitrary generated programs is NOT decided by this family.",
+         "Trusted: the registry sources are the versions Cargo.lock pins; Rust prelude list."),
+ "C02": ("asnlint", "static analysis: sibling-agreement rule over every ASN1Type pattern (SEQUENCE/SET, SEQUENCE OF/SET OF); adaptor whitelist over component-list iterator chains; kind->type table extraction; guard/emission pairs",
+         "Every decision over ASN1Type treats SET like SEQUENCE and SET OF like SEQUENCE OF; no component-list chain filters, reorders or truncates; the ASN.1-kind -> rasn-type tables agree with the reference and each other; Box/set/SetOf/default wrappers are applied under their exact guards. (List conversions and Option<> wrapping are decided under C05.)",
+         "Not decided: that the parsed list equals the source list; hoisted names for arbitrary nesting."),
+ "C04": ("asnlint", "static analysis: abstract evaluation of fold_constraint_set (helpers inlined) over all order types of two operands on a 6-point end-point alphabet incl. open ends; exhaustive tables for serial combination, rendering and fixed_size",
+         "For every pair of value/range operands and each of UNION/INTERSECTION/EXCEPT the folded bound never excludes a permitted value and equals the hull/intersection/base; serial constraints intersect with absent = identity, extensibility sticky; the (min?,max?,ext,size) rendering table and fixed_size are exhaustive.",
+         "Not decided: parser precedence/associativity, reference resolution, expressions with 3+ operands, character-string folding."),
+ "C07": ("asnlint", "static analysis: exhaustive evaluation of literal tables and tiny pure converters over their whole finite domain (16 hex digits, 256 octets, X.660 arc names, string-type constructors)",
+         "Table clauses only: hex/bstring digit tables, both octet<->bit converters for all 256 octets (MSB first), named-bit vector construction, well-known OID arcs and root detection against X.660, string constructor/type agreement, quote unescaping. Everything that depends on literal contents or reference chains is not decided.",
+         "Trusted: ref/x660_arcs.json; rasn BitString is MSB-first."),
+ "C09": ("asnlint", "static analysis: sibling agreement of the four detector/rewriter traversal pairs of the linker over container variants; insertion-position rule for COMPONENTS OF",
+         "Each notation detector and its rewriter descend into the same containers; COMPONENTS OF takes root components only, accepts SET, and is checked for splice position. The equivalence sugared = expanded itself and name-order independence are NOT decided (not applicable to this family).",
+         "A thin necessary condition; see DESIGN §5."),
+ "C10": ("asnlint", "static analysis: exhaustive variant analysis of every generator dispatch (which IR variants reach an empty result); guard-table vs pattern agreement at each remove/insert site of the linker; fold closures evaluated for Ok/Err; discarded-Result lint",
+         "No IR variant outside the documented silent categories can reach an empty output; every removal from the definitions map re-inserts on all accepting branches and each refutable pattern is implied by its guard; per-definition folds turn an Err into exactly one warning and continue; no linker/generator Result is discarded. The bare-name map key is a known finding.",
+         "Thorough tier adds a compile_fail witness that CompilerError exposes no bindings."),
+ "C13": ("asnlint", "static analysis: abstract interpretation of the lexer's nom combinator expressions (lead-trivia / nullability / trivia-only summaries, wrappers inlined, fixpoint over named parsers); boundary obligations between adjacent operands",
+         "At every sequencing boundary of every parser outside lexical (recognize) context, the right operand skips comments and whitespace; the residue is an audited table of intra-token boundaries and 2 known findings. Covers all token boundaries of the grammar source rather than sampled layouts.",
+         "Trusted: nom sequencing semantics; multispace accepts CR/LF. Doc-comment attribution excluded by the property."),
+ "C14": ("asnlint", "static analysis: abstract evaluation of the enumeral numbering closure (explicit kept, identifier verbatim, dependence on used numbers); def-use of the additions' start value; emission template",
+         "Explicit numbers and identifiers are stored unchanged and in order; additions continue from the root; the discriminant emitted is the stored index; numbering-by-position (no dependence on used numbers) is a known finding. The full X.680 §20 algorithm is not decided.",
+         "Trusted: fold_many0 applies the closure left to right."),
+ "C15": ("asnlint", "static analysis: table extraction from static initialisers (char arrays, code-point ranges) compared cell by cell with X.680 §41 alphabets and canonical order; exhaustive CharacterStringType tables; FROM range index table",
+         "Each known-multiplier type's table equals the normative alphabet in code-point order; both known-multiplier lists equal X.691 §30.1; open/closed FROM range ends map to the right indices, inclusive; singletons/ranges rendered as specified. Folding of FROM set expressions is not decided.",
+         "Trusted: ref/x680_charsets.json."),
+ "C17": ("asnlint", "static analysis: normal-form comparison of the three renderings of a lexer error; who-may-write and def-use dependences of Input's position fields; path flow chain",
+         "Display, contextualize() and ReportData show the same line/column/file access paths with no arithmetic; only the constructors and Input::slice write the position, with line += consumed line breaks and offset += consumed length; the source path flows from AsnSource::Path to both renderers. Which position nom selects is not decided.",
+         "Text-level normal forms of a handful of small fns; a refactoring of those fns needs the rule updated."),
+ "C18": ("asnlint", "static analysis: bracket balance of every TypeScript template after {{ }} unescaping; syntactic-category typing of union producers vs postfix []; abstract evaluation of the member/choice renderers; exhaustive dispatch",
+         "Every template is balanced and has one export under the definition's own mangled name; `?` iff not Required, index signature iff extension marker, CHOICE = union of single-key objects, arrays parenthesise unions; EXTENSIBILITY IMPLIED being ignored is a known finding. Declared-or-imported closure of names is not decided.",
+         "Trusted: TypeScript precedence of | and []."),
+ "C19": ("asnlint", "static analysis: who-may-read table of Config fields; branch delta of the option-dependent quote! templates; derive-set facts",
+         "Every option is read only by the fns of its documented aspect; option-dependent templates differ only in the documented tokens and interpolate the same variables; From impls only append after the unchanged CHOICE for unique payload types; required derives always present, user derives merged without duplicates, every type item goes through the merged annotation list.",
+         "Trusted: audit/config_reads.json."),
  "C03": ("asnlint", "static analysis: decision-table extraction from the syntax tree (header/keyword/class/Add/format_tag tables), composed over the 48-cell configuration space and compared with X.680; field-coverage and guard truth tables",
          "Exhaustive over the property's own finite configuration space (module default x tag keyword x class) by composing tables extracted from the source, plus coverage of every Option<AsnTag> position by the tagging pass and the renderer, and the automatic_tags guard. Decides these structural clauses, not the DER bytes.",
          "Trusted: rasn's derive semantics of tag(..)/automatic_tags; nom combinator semantics; ref/x680_tagging.json transcription. Explicitness of tagged CHOICE components is don't-care (rasn applies it)."),
